@@ -21,6 +21,30 @@ M = A + "crypto::merkle::"
 MT = M + "MerkleTree::"
 
 
+def parity_of(a, body=None):
+    """'even' / 'odd' when the guard atom tests x % 2 (or x & 1), in any spelling: integer switch on the remainder, or == / != against 0 / 1"""
+    def is_par(t):
+        t = K.peel(t)
+        return isinstance(t, tuple) and t and t[0] == "bin" and t[1] in ("Rem", "BitAnd") and K.const_eval(t[3]) == (2 if t[1] == "Rem" else 1)
+    if a[0] == "switch" and is_par(a[1][0]):
+        vals = a[1][1]
+        if vals == (0,):
+            return "even"
+        if vals == (1,):
+            return "odd"
+        if vals == ("else",) and body is not None and len(a) > 3:
+            arms = body.switch_arm_values(a[3])
+            return "odd" if arms == [0] else "even" if arms == [1] else None
+        return None
+    if a[0] == "eq":
+        x, y = a[1]
+        for (p, c) in ((x, y), (y, x)):
+            if is_par(p) and K.const_eval(c) in (0, 1):
+                zero = K.const_eval(c) == 0
+                return "even" if (zero == a[2]) else "odd"
+    return None
+
+
 def walkers(prog, prefix=None):
     """bodies in crypto::merkle that consume an index bit per proof element: contain `x % 2` and `x / 2` on a local fed from param index"""
     out = []
@@ -269,18 +293,15 @@ def check(run):
                "swapped sides or a shared label let a proof for one position/level verify for another", floor=9)
     for (b, rem, div) in ws:
         key = fshort(b.defpath)
-        sw = [s for (s, dterm, dty) in b.switches() if isinstance(dterm, tuple) and dterm[0] == "bin" and dterm[1] in ("Rem", "BitAnd")]
-        if not sw:
-            o.fail(key + "|parity-switch", "no switch on index parity", b.span)
-            continue
-        s = sw[0]
-        es = b.edges()
-        even_t = [e[1] for e in es if e[0] == s and e[2] == ("sw", 0)]
-        odd_t = [e[1] for e in es if e[0] == s and e[2] == ("sw", "else")]
         hp = b.calls_to(MT + "hash_pair")
-        ev = [c for c in hp if even_t and b.can_reach(even_t[0], c.bb) and not (odd_t and b.dominates(odd_t[0], c.bb))]
-        od = [c for c in hp if odd_t and b.dominates(odd_t[0], c.bb)]
-        ev = [c for c in ev if c not in od]
+        ev, od, unk = [], [], []
+        for c in hp:
+            ps = set(p for p in (parity_of(a, b) for a in G.guard_atoms(b, c.bb, prog)) if p)
+            (ev if ps == {"even"} else od if ps == {"odd"} else unk).append(c)
+        if not ev and not od:
+            o.fail(key + "|parity-switch", "no hash_pair call is selected by the parity of the index", b.span)
+            continue
+        o.check(not unk, key + "|parity-switch", "every hash_pair call in the walk is selected by the parity of the walking index", b.span, {"unselected": [c.span for c in unk]})
         # the accumulator: the local that receives the hash_pair results
         node_locals = set()
         for c in hp:
@@ -350,7 +371,7 @@ def check(run):
         ok = False
         for (bb, sp) in nones:
             atoms = G.guard_atoms(b, bb, prog)
-            parity_even = any(a[0] == "switch" and a[1][1] == (0,) and K.mentions(a[1][0], lambda t: t[0] == "bin" and t[1] in ("Rem", "BitAnd")) for a in atoms)
+            parity_even = any(parity_of(a, b) == "even" for a in atoms)
             ne_empty = any(a[0] == "eq" and a[2] is False and any("EMPTY_ROOTS" in mir.show(x) for x in a[1]) for a in atoms)
             if parity_even and ne_empty:
                 ok = True
@@ -389,6 +410,24 @@ def check(run):
     b = prog.body(MT + "check_hash_proof_last")
     if b is not None:
         fam = prog.family(MT + "check_hash_proof_last")
-        ok = any(c.name == MT + "derive_hash_root_last" for c in b.calls()) and any(any(x.name.rsplit("::", 1)[-1] == "eq" for x in fb.calls()) for fb in fam)
-        isa = [c for c in b.calls() if c.name.endswith("Option::is_some_and")]
-        o.check(ok and len(isa) == 1 and isa[0].dst["l"] == 0, "check_hash_proof_last|verdict", "verdict = derive_hash_root_last(..).is_some_and(derived == root)", b.span)
+        ok = True
+        nrows = 0
+        for atoms, ret, blocks in paths.decision_table(b, prog):
+            nrows += 1
+            if ret is not None and ret[0] == "const" and ret[1] == "bool" and not ret[2]:
+                continue
+            conds = list(atoms)
+            if not (ret is not None and ret[0] == "const"):
+                if ret is None:
+                    ok = False
+                    break
+                conds.append(G.norm_bool(ret, True))
+            derived = any(c[0] == "is_some" and c[2] is True and K.mentions_call(c[1][0], "derive_hash_root_last") for c in conds)
+            cmp_root = any(c[0] == "eq" and c[2] is True and any(K.mentions_arg(b, x, 3) for x in c[1]) and any(K.mentions_call(x, "derive_hash_root_last") for x in c[1]) for c in conds)
+            via_closure = False
+            for c in conds:
+                if c[0] == "bool" and c[2] is True and K.mentions_call(c[1][0], "is_some_and") and K.mentions_call(c[1][0], "derive_hash_root_last"):
+                    via_closure = any(any(x.name.rsplit("::", 1)[-1] == "eq" for x in fb.calls()) for fb in fam if fb.is_closure)
+            if not ((derived and cmp_root) or via_closure):
+                ok = False
+        o.check(ok and nrows >= 1 and any(c.name == MT + "derive_hash_root_last" for c in b.calls()), "check_hash_proof_last|verdict", "verdict is true only when derive_hash_root_last(..) is Some(derived) and derived == root", b.span)
